@@ -531,7 +531,7 @@ func c20Check(c C20Case, rec *evid.Rec) error {
 }
 
 var c20Part = evid.Part[C20Case]{
-	Prop: "C20", Name: "concurrent", Quick: 150, Thorough: 15000,
+	Prop: "C20", Name: "concurrent", Quick: 150, Thorough: 200000,
 	Rule: "round: 2-24 goroutines each run a drawn sequence of ≤40 read-only operations on objects created once and shared (basicnode / bindnode / generated nodes with their representation views, plain and reader-backed bytes nodes, a compiled selector, a traversal configuration and link system over a read-only store, a type system, bindnode and generated prototypes, the default codec registry): full reads, DeepEqual, Copy, encode, ComputeLink, Load, LoadRaw, WalkAdv, WalkMatching, Get, building from shared prototypes, Wrap/Prototype with explicit and inferred schemas, registry look-ups, schema type methods, selector compilation, binding calls that inference refuses; built with the race detector, varied GOMAXPROCS and injected Gosched; every result must equal the sequentially computed one; non-trivial = ≥2 goroutines performed the same class of operation on the shared objects; sampled schedules, distinct by the operation matrix",
 	Gen: func(t *rapid.T) C20Case {
 		g := rapid.IntRange(2, 24).Draw(t, "goroutines")
